@@ -443,8 +443,23 @@ func c08r3(c *Ctx) {
 			c.VisitGraph(f)
 			ob := c.Ob(f, "constructed-from-locked:"+sink.Fn.Name(), sink.Pos())
 			found, good := false, true
+			isRenewalCtor := func(fn *types.Func) bool {
+				return isCoreConstructor(fn) && (fn.Name() == "RenewContract" || strings.HasPrefix(fn.Name(), "RefreshContract"))
+			}
 			for _, call := range f.Calls(false) {
-				if fn := call.Fn; isCoreConstructor(fn) && (fn.Name() == "RenewContract" || strings.HasPrefix(fn.Name(), "RefreshContract")) {
+				ctor := isRenewalCtor(call.Fn)
+				if call.Fn == nil {
+					// through a function variable that only ever holds such constructors (full / partial rollover)
+					if fns := calleesThrough(f, call.Expr); len(fns) > 0 {
+						ctor = true
+						for _, fn := range fns {
+							if !isRenewalCtor(fn) {
+								ctor = false
+							}
+						}
+					}
+				}
+				if ctor {
 					found = true
 					o := origin(f, call.Expr.Args[0])
 					okBase := false
